@@ -36,6 +36,7 @@ let () =
   let stream = Sys.argv.(1) in
   let f = match stream with
     | "layout" -> run_layout
+    | "mech" -> run_mech
     | _ -> (prerr_endline ("unknown stream " ^ stream); exit 2) in
   let ic = open_in Sys.argv.(2) in
   (try
